@@ -160,8 +160,9 @@ func main() {
 		}
 	}
 	t0 := time.Now()
+	thoroughTier = *tier == "thorough"
 	withCanary := !*noCanary
-	w, canaryNote, err := loadWithCanaries(*repo, ov, withCanary, *tier == "thorough" && false)
+	w, canaryNote, err := loadWithCanaries(*repo, ov, withCanary, *tier == "thorough" && len(ov) == 0)
 	status := 0
 	for _, id := range ids {
 		r := newRun(id, *tier, seed)
@@ -191,6 +192,12 @@ func main() {
 		r.evDir = *evdir
 		if *tier == "thorough" && err == nil && len(ov) == 0 {
 			runSelfTest(r, id, *repo, vdir)
+			switch id {
+			case "C02", "C12", "C13", "C15", "C10":
+				runDRules(w, r, "D1")
+			case "C08":
+				runDRules(w, r, "D1", "D2")
+			}
 		}
 		if st := r.Finish(vdir, cmd); st != 0 {
 			status = 1
